@@ -13,6 +13,7 @@ void harness(void) {
   m.r[RAX] = from->size == 8 ? v : ((garbage << 32) | (uint32_t)v);
   REACH("explored");
   cast(from, to);
+  REACH("cast returns");
   int64_t want = spec_conv(st_, (int64_t)v);
   OBLIGE(!m.unknown, "C01.3 conversion text is inside the machine vocabulary");
   OBLIGE(!m.bad && m.sp == 1 && depth == 1 && !m.skip, "C01.3 conversion leaves the stack alone and no jump pending");
